@@ -4,6 +4,7 @@ import numpy as np
 from hypothesis import strategies as st
 from vf.runner import hyp_run, run_cases, guard, fail, exc_failure
 
+THOROUGH_SCALE = 6      # multiplies every generated-case budget of the thorough tier
 RULE = ("histories of 1-40 frames of 3x3..48x48 built from a generated voxel set: random fills (incl. empty frames), "
         "'tubes' (3-D paths that wander, fork and re-join between frames), explicit bridges (two blobs on one frame "
         "joined only through the previous frame or only through the next frame), chains over >= 3 frames; integer "
